@@ -57,7 +57,7 @@ def cfg_tag(cfg):
     return t
 
 
-def windows(e, events):
+def windows(e, events, resumed=False):
     """semantic position of a crash point in strategy 'latest' (iterations >= 1):
     'mean'  : after the mean file of iteration k was moved into place and before
               last_finished_iteration was advanced (state of iteration k-1 is gone, marker says k-1)
@@ -70,9 +70,9 @@ def windows(e, events):
         return set()
     j_commit = nxt[0]
     prev = [c for c in commits if c < j_commit]
-    if not prev:
+    if not prev and not resumed:
         return set()            # first iteration: nothing committed yet, resume starts from scratch
-    j_prev = prev[-1]
+    j_prev = prev[-1] if prev else -1      # resumed run: the directory already holds a committed iteration
     out = set()
     mut = [x["i"] for x in events if j_prev < x["i"] < j_commit and x["kind"] in ("rename", "remove")
            and x["path"].startswith("pickle/latest.")]
@@ -90,11 +90,14 @@ def keyfn(outcome, e, cfg, events):
     # mechanism key: outcome @ save strategy : semantic window, else class of the file the crash hit.
     # For double crashes the deciding crash is the second one; its event list comes from a recording
     # probe of the resumed run (crashcheck passes it as e["second_event"], e["second_events"]).
-    e_eff, ev_eff = e, events
+    e_eff, ev_eff, resumed = e, events, False
     if e.get("second_event") is not None:
         e_eff, ev_eff = e["second_event"], e["second_events"]
+        # the resumed run continues from a committed iteration iff the first crash came after a commit
+        commits = [x["i"] for x in events if x["kind"] == "rename" and x["path"] == "last_finished_iteration"]
+        resumed = any(c < e["idx"] or (c == e["idx"] and e["phase"] != "before") for c in commits)
     if cfg.get("save_strategy", "latest") == "latest":
-        w = windows(e_eff, ev_eff)
+        w = windows(e_eff, ev_eff, resumed)
         if outcome == "resume-differs" and "mean" in w:
             return f"resume-differs@{cfg_tag(cfg)}:samples-and-mean-replaced-before-commit"
         if outcome.startswith("resume-raises") and "files" in w and cfg.get("n_samples"):
